@@ -30,12 +30,13 @@ Record imon2 := mkIMon2 {
   n_crashed : bool;
   n_demotes : Z;                 (* demotion callbacks entered *)
   n_start_t : Z;                 (* when the latest Start was accepted *)
-  n_fault_ops : list Z           (* calls of this instance hit by an injected fault and still in flight *)
+  n_fault_ops : list Z;          (* calls of this instance hit by an injected fault and still in flight *)
+  n_reconn_t : option Z          (* a reconnect was notified to the leader at this time and no verification read has been issued since *)
 }.
 #[export] Instance eta_imon2 : Settable _ :=
   settable! mkIMon2 <n_att; n_fails; n_okissue; n_lost; n_lost_fault; n_due; n_hrun; n_hdue; n_hdem; n_vals; n_disc; n_reconn;
-                     n_vers; n_disc_prev; n_tk_due; n_last_fault; n_crashed; n_demotes; n_start_t; n_fault_ops>.
-Definition imon20 := mkIMon2 None 0 0 None false None 0 None None [] None false [] None None (-1) false 0 0 [].
+                     n_vers; n_disc_prev; n_tk_due; n_last_fault; n_crashed; n_demotes; n_start_t; n_fault_ops; n_reconn_t>.
+Definition imon20 := mkIMon2 None 0 0 None false None 0 None None [] None false [] None None (-1) false 0 0 [] None.
 
 Record mst2 := mkM2 { q_i : amap imon2; q_vac : amap Z (* key -> time the record became absent *); q_maxlat : Z }.
 #[export] Instance eta_mst2 : Settable _ := settable! mkM2 <q_i; q_vac; q_maxlat>.
@@ -94,7 +95,7 @@ Definition m2apply (b b' : base) (m0 : mst2) (te : Z * ev) : mst2 :=
                               <| n_hrun := 0 |> <| n_hdue := None |> <| n_tk_due := None |> <| n_vers := [] |>)
       else
         let m1 := m2upd m i (fun x =>
-          let x1 := x <| n_att := None |> <| n_lost := None |> <| n_hdue := None |> <| n_vers := [] |> in
+          let x1 := x <| n_att := None |> <| n_lost := None |> <| n_hdue := None |> <| n_vers := [] |> <| n_reconn_t := None |> in
           let x2 := if (cause =? sHealthFail) && io_flag (inst_of b i) then x1 <| n_hdem := Some (t, n_demotes x1) |> else x1 in
           (* the claim is gone; what remains due is the demotion callback (kept with the same deadline) *)
           x2) in
@@ -115,6 +116,8 @@ Definition m2apply (b b' : base) (m0 : mst2) (te : Z * ev) : mst2 :=
                              | None => m end in
                   m2upd m0' i (fun x => x <| n_att := Some (op, t) |>)
                 else m in
+      (* the first read of a reconnect verification answers the latest reconnect notification *)
+      let m1 := if (kind =? kGet) && (inner =? sVerify) then m2upd m1 i (fun x => x <| n_reconn_t := None |>) else m1 in
       if (kind =? kGet) && (inner =? sValidate)
       then m2upd m1 i (fun x => x <| n_vers ::= promote_ver t op |>) else m1
   | ERet i op rk rev val =>
@@ -182,11 +185,11 @@ Definition m2apply (b b' : base) (m0 : mst2) (te : Z * ev) : mst2 :=
       else if call =? aConn then
         if a1 =? 1 then m2upd m i (fun x => x <| n_disc_prev := (match n_disc x with Some (td, _, _) => if n_reconn x then None else Some td | None => None end) |>
                                               <| n_disc := Some (t, io_flag (inst_of b i), io_terms (inst_of b i)) |> <| n_reconn := false |>)
-        else if a1 =? 2 then m2upd m i (fun x => x <| n_reconn := true |>)
+        else if a1 =? 2 then m2upd m i (fun x => x <| n_reconn := true |> <| n_reconn_t := (if io_flag (inst_of b i) then Some t else n_reconn_t x) |>)
         else m
       else if (call =? aStop) || (call =? aStopCtx) then
         (* a stop ends every pending obligation of the instance; promptness of others is not claimed across stops *)
-        let m1 := m2upd m i (fun x => x <| n_due := None |> <| n_hdue := None |> <| n_disc := None |> <| n_vers := [] |> <| n_lost := None |> <| n_att := None |>) in
+        let m1 := m2upd m i (fun x => x <| n_due := None |> <| n_hdue := None |> <| n_disc := None |> <| n_vers := [] |> <| n_lost := None |> <| n_att := None |> <| n_reconn_t := None |>) in
         fold_left (fun m ic => m2upd m (fst ic) (fun x => x <| n_tk_due := None |>)) (b_cfgs b) m1
       else m
   | EApiRet i call res err gid =>
@@ -243,6 +246,11 @@ Definition overdue (b : base) (m : mst2) (t : Z) : list alarm :=
     | None => []
     end ++
     when (existsb (fun v => let '(st, tv, _) := v in (st =? 4) && (tv <? t)) (n_vers x) && io_flag io) 1103 ++
+    (* every reconnect notification to a leader is followed, after the settling delay, by a fresh read of the record *)
+    match n_reconn_t x with
+    | Some tr => when (ic_monitor c && io_flag io && negb (io_stopping io) && (tr + verify_settle_delay <? t)) 1107
+    | None => []
+    end ++
     (* C10 *)
     match n_tk_due x with Some d => when ((d <? t) && negb (io_flag io)) 1002 | None => [] end)
   (b_cfgs b).
